@@ -346,4 +346,41 @@ theorem isPermOf_iff [BEq α] [LawfulBEq α] (out inp : List α) :
     simp only [isPermOf, List.all_eq_true, beq_iff_eq]
     exact fun x _ => h.count_eq x
 
+/-- A strict order pulled back along a projection (sorting records by a key). -/
+theorem StrictOn.comap {β : Type} {P : β → Prop} {before : β → β → Bool} (h : StrictOn P before)
+    (f : α → β) : StrictOn (fun x => P (f x)) (fun x y => before (f x) (f y)) where
+  asymm := fun x y hx hy => h.asymm (f x) (f y) hx hy
+  trans := fun x y z hx hy hz => h.trans (f x) (f y) (f z) hx hy hz
+
+/-- Rearranging an association list with pairwise distinct keys does not change any lookup. -/
+theorem perm_lookup {κ β : Type} [BEq κ] [LawfulBEq κ] {l l' : List (κ × β)} (hp : l.Perm l')
+    (hnd : l.Pairwise (fun a b => a.1 ≠ b.1)) (k : κ) : l.lookup k = l'.lookup k := by
+  induction hp with
+  | nil => rfl
+  | cons x _ ih =>
+    rw [List.pairwise_cons] at hnd
+    cases x with
+    | mk a b => simp only [List.lookup_cons, ih hnd.2]
+  | swap x y l =>
+    rw [List.pairwise_cons, List.pairwise_cons] at hnd
+    have hne : y.1 ≠ x.1 := hnd.1 x (List.mem_cons_self ..)
+    cases x with
+    | mk a b =>
+      cases y with
+      | mk c d =>
+        simp only [List.lookup_cons]
+        by_cases h1 : k = a
+        · subst h1
+          have : (k == c) = false := by
+            simp only [beq_eq_false_iff_ne, ne_eq]; exact fun e => hne e.symm
+          simp [this]
+        · have : (k == a) = false := by simpa using h1
+          simp [this]
+  | trans h1 _ ih1 ih2 =>
+    rw [ih1 hnd]
+    exact ih2 ((h1.pairwise_iff (fun {a b} (h : a.1 ≠ b.1) => Ne.symm h)).mp hnd)
+
+theorem liveAssoc_perm {a b : List Slot3} (h : a.Perm b) : (liveAssoc a).Perm (liveAssoc b) :=
+  (h.filter _).map _
+
 end Qentem.Sort
